@@ -160,10 +160,10 @@ def pathElOf : Option Elem → PathEl
 def addCurrent (t : Traveler) (r : Option Elem) : Traveler :=
   { cur := r, marks := t.marks, path := t.path ++ [pathElOf r] }
 
-/-- `BaseTraveler.AddMark`: copies marks, path and current; count, render, selections and
-    aggregation are *not* copied. -/
+/-- `BaseTraveler.AddMark`: copies marks, path, current and the payload fields (count, render,
+    selections, aggregation — since the `fix:` commit for finding C01-as-resets-payload). -/
 def addMark (t : Traveler) (m : String) (r : Option Elem) : Traveler :=
-  { cur := t.cur, marks := setMark t.marks m r, path := t.path }
+  { t with marks := setMark t.marks m r }
 
 end Traveler
 
